@@ -3,9 +3,9 @@ HANDLER = "C10"
 RULE = ("generated bit-vector transition systems with at most 2^10 state valuations and at most 3 input bits, eleven families "
         "(counters with enable/wrap/saturation/flags, shift registers with an input constraint, lock-step register pairs, one-hot rings, "
         "explicit FSM tables, random next-state logic, states without init / without next / constant, init reading an earlier state, "
-        "init reading an input); steered so that at most 45% are unsafe (least depth 0..14) and at most 15% trivially safe, the rest "
+        "init reading an input); steered so that at most 40% are unsafe (least depth 0..14, spread over depth buckets) and at most 12% trivially safe, the rest "
         "safe with a property that is NOT inductive by itself (histograms `class`, `kind`); every system x {generalisation on, off} x "
-        "{z3, cvc5} x solver seeds (wrapper scripts first on PATH add smt.random_seed/sat.random_seed/phase options) for systems with "
+        "{z3, cvc5, push/pop profile (patronus' YICES2 profile with z3 behind it; generalisation off only)} x solver seeds (wrapper scripts first on PATH add smt.random_seed/sat.random_seed/phase options) for systems with "
         "<= full-bits state bits (cvc5: <= cvc5-bits), z3 with generalisation only for the larger ones (histogram `config_set`); each run of the real patronus::mc::pdr in a child "
         "process under a 60 s watchdog; verdict compared with the extracted reach_spec; every Fail witness replayed in the extracted "
         "Spec/System.v semantics and through patronus::sim::Interpreter. distinct = distinct (system, solver, mode, seed)")
@@ -28,11 +28,11 @@ PROFILES = ["debug"]
 def streams(tier, seed):
     if tier == "quick":
         # z3 seed 4 = smt.core.minimize, cvc5 seed 2 = --minimal-unsat-cores: small cores make the init re-fixing matter
-        return [dict(tag="main", count=40, seed=seed, extra={"runs": "z3:0,4;cvc5:2", "jobs": 8, "full-bits": 4, "cvc5-bits": 4, "small-share": 75})]
+        return [dict(tag="main", count=40, seed=seed, extra={"runs": "z3:0,4;cvc5:2;pushpop:0", "jobs": 8, "full-bits": 4, "cvc5-bits": 4, "small-share": 75})]
     out = []
     for k in range(3):
-        out.append(dict(tag="main%d" % k, count=50, seed=seed * 1000 + k,
-                        extra={"runs": "z3:0,1,2,3,4;cvc5:0,1,2", "jobs": 10, "full-bits": 5, "cvc5-bits": 4, "small-share": 70}))
+        out.append(dict(tag="main%d" % k, count=40, seed=seed * 1000 + k,
+                        extra={"runs": "z3:0,1,2,3,4;cvc5:0,1,2;pushpop:0,1", "jobs": 10, "full-bits": 4, "cvc5-bits": 4, "small-share": 70}))
     return out
 
 
